@@ -26,6 +26,7 @@ func checkC19(p *Prog, r *Report) {
 	ruleC19Grow(p, a, r)
 	ruleFilterBindsTightest(p, a, r, "R-C19-BIND")
 	ruleEvalNodesBuiltOnce(p, a, r, "R-C19-BUILT")
+	ruleC19Unwrap(p, a, r)
 }
 
 // chainLoop describes a loop over a slice of filter-call structs in an execution function.
